@@ -146,7 +146,7 @@ func init() {
 	core.Register(&core.Check{
 		ID:     "C19",
 		Level:  "exploration",
-		Rule:   rule + "every output is read back and compared with the input as seen through the harness's own page-tree walker: page sequence by content markers, decoded content, effective MediaBox/CropBox/Rotate, resources (canonical deep serialisation), Info title, and for plain rewrites the canonical serialisation of the whole object graph from the catalog; non-trivial = an output written with object streams, xref stream, non-LF EOL or encryption",
+		Rule:   rule + "every output is read back and compared with the input as seen through the harness's own page-tree walker: page sequence by content markers, decoded content, effective MediaBox/CropBox/Rotate, the resources its content uses (canonical deep serialisation; names nothing refers to may be pruned), Info title, and for plain rewrites the canonical serialisation of the whole object graph from the catalog; non-trivial = an output written with object streams, xref stream, non-LF EOL or encryption",
 		Assume: []string{"pdfcpu's reader is trusted for tokenising the files (the property is phrased in terms of reading back); inheritance, page order and graph comparison are the harness's own"},
 		Run:    func(r *core.R) { runC18C19(r, false) },
 	})
@@ -178,7 +178,7 @@ func runC18C19(r *core.R, structure bool) {
 		}
 		v := &inView{}
 		for _, p := range pgs {
-			v.fps = append(v.fps, pdfx.PageFingerprint(ctx, p))
+			v.fps = append(v.fps, pdfx.UsedFingerprint(ctx, p))
 		}
 		// self-check of the family expectations through the harness walker
 		for pi, p := range pgs {
@@ -291,7 +291,7 @@ func runC18C19(r *core.R, structure bool) {
 				what = fmt.Sprintf("effective MediaBox %s, want %s", fmtBox(p.MediaBox), f.Media[pi])
 			}
 			if what == "" && op.name != "add-annotation-as-increment" {
-				fp := pdfx.PageFingerprint(ctx, p)
+				fp := pdfx.UsedFingerprint(ctx, p)
 				if fp != views[j.fi].fps[pi] {
 					what = fmt.Sprintf("page fingerprint differs:\n  in : %s\n  out: %s", trimTo(views[j.fi].fps[pi], 3000), trimTo(fp, 3000))
 				}
